@@ -257,6 +257,11 @@ fn run_docs<T: yaserde::YaSerialize + yaserde::YaDeserialize + std::fmt::Debug>(
     }
     emit(format!("{{\"ev\":\"end\",\"id\":{},\"side\":{}}}", js(id), js(side)));
 }
+fn run_default<T: yaserde::YaSerialize + Default>(id: &str, side: &str) {
+    // the value every member of which is "absent" as far as the type can say so
+    let s = yaserde::ser::to_string(&T::default());
+    emit(format!("{{\"ev\":\"default\",\"id\":{},\"side\":{},{}}}", js(id), js(side), rs(&s)));
+}
 fn run_check<T: g::restrictions::CheckRestrictions>(id: &str, v: &T) {
     let r = v.check_restrictions(None);
     match r {
